@@ -8,10 +8,9 @@ CONSTANTS
   MaxCrash = 2
   DropTombAlways = FALSE
   SizeRotate = FALSE
-  WalRemoveAnyOrder = TRUE
+  WalRemoveAnyOrder = FALSE
   RecFinishRenameFirst = FALSE
-  Async = FALSE
+  Async = TRUE
   RotateDropsBuffer = FALSE
 INVARIANTS CrashSafe ReadsLikeMap
-PROPERTIES StepProperty
 CHECK_DEADLOCK FALSE
